@@ -35,16 +35,16 @@ type wField struct {
 	nilable bool   // the field's comment documents that it may be nil ("or nil", "may be nil", …)
 }
 
-var nilWord = regexp.MustCompile(`(^|[^-\w])nil\b`)
+var wNilWord = regexp.MustCompile(`(^|[^-\w])nil\b`)
 
-// nilableNames: which of the names declared by f are documented as possibly nil.
-func nilableNames(f *ast.Field) map[string]bool {
+// wNilableNames: which of the names declared by f are documented as possibly nil.
+func wNilableNames(f *ast.Field) map[string]bool {
 	res := map[string]bool{}
 	if f.Comment == nil {
 		return res
 	}
 	text := f.Comment.Text()
-	if !nilWord.MatchString(text) {
+	if !wNilWord.MatchString(text) {
 		return res
 	}
 	mentioned := 0
@@ -83,7 +83,7 @@ type astPkg struct {
 	files     map[string]*ast.File
 }
 
-func exprStr(fset *token.FileSet, n ast.Node) string {
+func wExprStr(fset *token.FileSet, n ast.Node) string {
 	var b bytes.Buffer
 	printer.Fprint(&b, fset, n)
 	return strings.Join(strings.Fields(b.String()), " ")
@@ -269,7 +269,7 @@ func loadAstPkg(repo string) (*astPkg, error) {
 					return true
 				})
 				if !ok {
-					return nil, broken("alias %s = go/ast.%s: field type %s not understood", local, g, exprStr(p.fset, f.Type))
+					return nil, broken("alias %s = go/ast.%s: field type %s not understood", local, g, wExprStr(p.fset, f.Type))
 				}
 			}
 			p.structs[local] = &wStruct{name: local, fields: st.Fields.List, hasPos: gm[g] >= 2, hasEnd: gm[g] >= 2, foreign: true}
@@ -315,7 +315,7 @@ func (p *astPkg) carrierFields(name string) []wField {
 	return res
 }
 
-func isAny(t ast.Expr) bool {
+func wIsAny(t ast.Expr) bool {
 	if id, ok := t.(*ast.Ident); ok && id.Name == "any" {
 		return true
 	}
@@ -335,12 +335,12 @@ func (p *astPkg) classify(t ast.Expr, top bool) string {
 		if t.Name == "bool" {
 			return "flag"
 		}
-		if isAny(t) && top {
+		if wIsAny(t) && top {
 			return "dyn"
 		}
 		return "other"
 	case *ast.InterfaceType:
-		if isAny(t) && top {
+		if wIsAny(t) && top {
 			return "dyn"
 		}
 		return "other"
@@ -364,7 +364,7 @@ func (p *astPkg) classify(t ast.Expr, top bool) string {
 		if t.Len != nil {
 			return "other"
 		}
-		if isAny(t.Elt) {
+		if wIsAny(t.Elt) {
 			return "parts"
 		}
 		switch p.classify(t.Elt, false) {
@@ -377,7 +377,7 @@ func (p *astPkg) classify(t ast.Expr, top bool) string {
 		case "other", "flag":
 			return "other"
 		}
-		return "unknown:" + exprStr(p.fset, t)
+		return "unknown:" + wExprStr(p.fset, t)
 	case *ast.MapType:
 		switch p.classify(t.Value, false) {
 		case "one":
@@ -387,7 +387,7 @@ func (p *astPkg) classify(t ast.Expr, top bool) string {
 		case "other", "flag":
 			return "other"
 		}
-		return "unknown:" + exprStr(p.fset, t)
+		return "unknown:" + wExprStr(p.fset, t)
 	case *ast.SelectorExpr:
 		if x, ok := t.X.(*ast.Ident); ok && x.Name == p.goastName && p.goastName != "" {
 			return "foreign"
@@ -409,7 +409,7 @@ func (p *astPkg) carrierFieldsNoRec(name string) []string {
 		switch t := f.Type.(type) {
 		case *ast.ArrayType:
 			if t.Len == nil {
-				if isAny(t.Elt) {
+				if wIsAny(t.Elt) {
 					hold = true
 				} else if id, ok := t.Elt.(*ast.Ident); ok && p.ifaces[id.Name] {
 					hold = true
@@ -458,11 +458,11 @@ func (p *astPkg) nodeFields(kind string) ([]wField, error) {
 			}
 			id, ok := t.(*ast.Ident)
 			if !ok {
-				return nil, broken("%s: embedded field %s not understood", kind, exprStr(p.fset, f.Type))
+				return nil, broken("%s: embedded field %s not understood", kind, wExprStr(p.fset, f.Type))
 			}
 			names = []*ast.Ident{id}
 		}
-		nl := nilableNames(f)
+		nl := wNilableNames(f)
 		for _, n := range names {
 			if strings.HasPrefix(k, "carrier:") {
 				for _, cf := range p.carrierFields(k[8:]) {
@@ -484,7 +484,7 @@ type walkSwitch struct {
 	defaultPanic bool
 }
 
-func nField(e ast.Expr, recv string) (string, bool) { // n.F -> F
+func wNField(e ast.Expr, recv string) (string, bool) { // n.F -> F
 	sel, ok := e.(*ast.SelectorExpr)
 	if !ok {
 		return "", false
@@ -496,7 +496,7 @@ func nField(e ast.Expr, recv string) (string, bool) { // n.F -> F
 	return sel.Sel.Name, true
 }
 
-func isCall(s ast.Stmt, fn string, nargs int) (*ast.CallExpr, bool) {
+func wIsCall(s ast.Stmt, fn string, nargs int) (*ast.CallExpr, bool) {
 	es, ok := s.(*ast.ExprStmt)
 	if !ok {
 		return nil, false
@@ -517,33 +517,33 @@ func isCall(s ast.Stmt, fn string, nargs int) (*ast.CallExpr, bool) {
 	return c, true
 }
 
-func isIdent(e ast.Expr, name string) bool {
+func wIsIdent(e ast.Expr, name string) bool {
 	id, ok := e.(*ast.Ident)
 	return ok && id.Name == name
 }
 
-// partsLoop recognises
+// wPartsLoop recognises
 //   for _, <p> := range <recv>.Parts { if <e>, ok := <p>.(Expr); ok { Walk(v, <e>) } }
 // and returns the ranged-over selector's field name.
-func partsLoop(s ast.Stmt, recv string) (string, bool) {
+func wPartsLoop(s ast.Stmt, recv string) (string, bool) {
 	rs, ok := s.(*ast.RangeStmt)
-	if !ok || rs.Tok != token.DEFINE || !isIdent(rs.Key, "_") || rs.Value == nil || len(rs.Body.List) != 1 {
+	if !ok || rs.Tok != token.DEFINE || !wIsIdent(rs.Key, "_") || rs.Value == nil || len(rs.Body.List) != 1 {
 		return "", false
 	}
 	pv, ok := rs.Value.(*ast.Ident)
 	if !ok {
 		return "", false
 	}
-	f, ok := nField(rs.X, recv)
+	f, ok := wNField(rs.X, recv)
 	if !ok {
 		return "", false
 	}
 	is, ok := rs.Body.List[0].(*ast.IfStmt)
-	if !ok || is.Else != nil || is.Init == nil || !isIdent(is.Cond, "ok") || len(is.Body.List) != 1 {
+	if !ok || is.Else != nil || is.Init == nil || !wIsIdent(is.Cond, "ok") || len(is.Body.List) != 1 {
 		return "", false
 	}
 	as, ok := is.Init.(*ast.AssignStmt)
-	if !ok || as.Tok != token.DEFINE || len(as.Lhs) != 2 || len(as.Rhs) != 1 || !isIdent(as.Lhs[1], "ok") {
+	if !ok || as.Tok != token.DEFINE || len(as.Lhs) != 2 || len(as.Rhs) != 1 || !wIsIdent(as.Lhs[1], "ok") {
 		return "", false
 	}
 	ev, ok := as.Lhs[0].(*ast.Ident)
@@ -551,65 +551,65 @@ func partsLoop(s ast.Stmt, recv string) (string, bool) {
 		return "", false
 	}
 	ta, ok := as.Rhs[0].(*ast.TypeAssertExpr)
-	if !ok || !isIdent(ta.X, pv.Name) || !isIdent(ta.Type, "Expr") {
+	if !ok || !wIsIdent(ta.X, pv.Name) || !wIsIdent(ta.Type, "Expr") {
 		return "", false
 	}
-	c, ok := isCall(is.Body.List[0], "Walk", 2)
-	if !ok || !isIdent(c.Args[1], ev.Name) {
+	c, ok := wIsCall(is.Body.List[0], "Walk", 2)
+	if !ok || !wIsIdent(c.Args[1], ev.Name) {
 		return "", false
 	}
 	return f, true
 }
 
-// simpleStep recognises the statement forms over fields of `recv` (n, or the carrier variable
+// wSimpleStep recognises the statement forms over fields of `recv` (n, or the carrier variable
 // of a dynamic case); prefix is prepended to the field names.
-func simpleStep(fset *token.FileSet, s ast.Stmt, recv, prefix string) ([]wStep, error) {
+func wSimpleStep(fset *token.FileSet, s ast.Stmt, recv, prefix string) ([]wStep, error) {
 	// Walk(v, n.F)
-	if c, ok := isCall(s, "Walk", 2); ok {
-		if f, ok := nField(c.Args[1], recv); ok {
+	if c, ok := wIsCall(s, "Walk", 2); ok {
+		if f, ok := wNField(c.Args[1], recv); ok {
 			return []wStep{{"one", prefix + f, ""}}, nil
 		}
 	}
 	// walkList(v, n.F)
-	if c, ok := isCall(s, "walkList", 2); ok {
-		if f, ok := nField(c.Args[1], recv); ok {
+	if c, ok := wIsCall(s, "walkList", 2); ok {
+		if f, ok := wNField(c.Args[1], recv); ok {
 			return []wStep{{"list", prefix + f, ""}}, nil
 		}
 	}
 	// for _, x := range n.F { Walk(v, x) }   |   for _, r := range n.F { walkList(v, r) }
-	if rs, ok := s.(*ast.RangeStmt); ok && rs.Tok == token.DEFINE && isIdent(rs.Key, "_") && rs.Value != nil && len(rs.Body.List) == 1 {
-		if f, ok := nField(rs.X, recv); ok {
+	if rs, ok := s.(*ast.RangeStmt); ok && rs.Tok == token.DEFINE && wIsIdent(rs.Key, "_") && rs.Value != nil && len(rs.Body.List) == 1 {
+		if f, ok := wNField(rs.X, recv); ok {
 			if xv, ok := rs.Value.(*ast.Ident); ok {
-				if c, ok := isCall(rs.Body.List[0], "Walk", 2); ok && isIdent(c.Args[1], xv.Name) {
+				if c, ok := wIsCall(rs.Body.List[0], "Walk", 2); ok && wIsIdent(c.Args[1], xv.Name) {
 					return []wStep{{"range", prefix + f, ""}}, nil
 				}
-				if c, ok := isCall(rs.Body.List[0], "walkList", 2); ok && isIdent(c.Args[1], xv.Name) {
+				if c, ok := wIsCall(rs.Body.List[0], "walkList", 2); ok && wIsIdent(c.Args[1], xv.Name) {
 					return []wStep{{"rows", prefix + f, ""}}, nil
 				}
 			}
 		}
 	}
 	// parts loop directly over recv.Parts
-	if f, ok := partsLoop(s, recv); ok {
+	if f, ok := wPartsLoop(s, recv); ok {
 		return []wStep{{"parts", prefix + f, ""}}, nil
 	}
 	if is, ok := s.(*ast.IfStmt); ok && is.Else == nil {
 		// if n.F != nil { Walk(v, n.F) }
-		if be, ok := is.Cond.(*ast.BinaryExpr); ok && is.Init == nil && be.Op == token.NEQ && isIdent(be.Y, "nil") {
-			if f, ok := nField(be.X, recv); ok && len(is.Body.List) == 1 {
-				if c, ok := isCall(is.Body.List[0], "Walk", 2); ok {
-					if f2, ok := nField(c.Args[1], recv); ok && f2 == f {
+		if be, ok := is.Cond.(*ast.BinaryExpr); ok && is.Init == nil && be.Op == token.NEQ && wIsIdent(be.Y, "nil") {
+			if f, ok := wNField(be.X, recv); ok && len(is.Body.List) == 1 {
+				if c, ok := wIsCall(is.Body.List[0], "Walk", 2); ok {
+					if f2, ok := wNField(c.Args[1], recv); ok && f2 == f {
 						return []wStep{{"opt", prefix + f, ""}}, nil
 					}
 				}
 				// if n.F != nil { for _, part := range n.F.Parts { … } }   (pointer to carrier)
 				if rs, ok := is.Body.List[0].(*ast.RangeStmt); ok {
 					if sel, ok := rs.X.(*ast.SelectorExpr); ok {
-						if f2, ok := nField(sel.X, recv); ok && f2 == f {
+						if f2, ok := wNField(sel.X, recv); ok && f2 == f {
 							// rewrite n.F.Parts as a selector on a pseudo receiver
 							cp := *rs
 							cp.X = &ast.SelectorExpr{X: ast.NewIdent("\x00carrier"), Sel: sel.Sel}
-							if pf, ok := partsLoop(&cp, "\x00carrier"); ok {
+							if pf, ok := wPartsLoop(&cp, "\x00carrier"); ok {
 								return []wStep{{"parts", prefix + f + "_" + pf, ""}}, nil
 							}
 						}
@@ -620,13 +620,13 @@ func simpleStep(fset *token.FileSet, s ast.Stmt, recv, prefix string) ([]wStep, 
 		// if e := n.F; e != nil { switch e := e.(type) { case *Carrier: <simple steps over e> … } }
 		if as, ok := is.Init.(*ast.AssignStmt); ok && as.Tok == token.DEFINE && len(as.Lhs) == 1 && len(as.Rhs) == 1 && len(is.Body.List) == 1 {
 			if ev, ok := as.Lhs[0].(*ast.Ident); ok {
-				if f, ok := nField(as.Rhs[0], recv); ok {
-					if be, ok := is.Cond.(*ast.BinaryExpr); ok && be.Op == token.NEQ && isIdent(be.X, ev.Name) && isIdent(be.Y, "nil") {
+				if f, ok := wNField(as.Rhs[0], recv); ok {
+					if be, ok := is.Cond.(*ast.BinaryExpr); ok && be.Op == token.NEQ && wIsIdent(be.X, ev.Name) && wIsIdent(be.Y, "nil") {
 						if ts, ok := is.Body.List[0].(*ast.TypeSwitchStmt); ok && ts.Init == nil {
 							if tas, ok := ts.Assign.(*ast.AssignStmt); ok && len(tas.Lhs) == 1 && len(tas.Rhs) == 1 {
 								cv, ok1 := tas.Lhs[0].(*ast.Ident)
 								ta, ok2 := tas.Rhs[0].(*ast.TypeAssertExpr)
-								if ok1 && ok2 && ta.Type == nil && isIdent(ta.X, ev.Name) {
+								if ok1 && ok2 && ta.Type == nil && wIsIdent(ta.X, ev.Name) {
 									var res []wStep
 									for _, cc := range ts.Body.List {
 										cl := cc.(*ast.CaseClause)
@@ -635,14 +635,14 @@ func simpleStep(fset *token.FileSet, s ast.Stmt, recv, prefix string) ([]wStep, 
 										}
 										st, ok := cl.List[0].(*ast.StarExpr)
 										if !ok {
-											return nil, broken("dynamic field %s: case %s not understood", f, exprStr(fset, cl.List[0]))
+											return nil, broken("dynamic field %s: case %s not understood", f, wExprStr(fset, cl.List[0]))
 										}
 										cid, ok := st.X.(*ast.Ident)
 										if !ok {
-											return nil, broken("dynamic field %s: case %s not understood", f, exprStr(fset, cl.List[0]))
+											return nil, broken("dynamic field %s: case %s not understood", f, wExprStr(fset, cl.List[0]))
 										}
 										for _, bs := range cl.Body {
-											steps, err := simpleStep(fset, bs, cv.Name, prefix+f+"_"+cid.Name+"_")
+											steps, err := wSimpleStep(fset, bs, cv.Name, prefix+f+"_"+cid.Name+"_")
 											if err != nil {
 												return nil, err
 											}
@@ -658,18 +658,18 @@ func simpleStep(fset *token.FileSet, s ast.Stmt, recv, prefix string) ([]wStep, 
 			}
 		}
 	}
-	return nil, broken("statement form not understood in Walk: %s", exprStr(fset, s))
+	return nil, broken("statement form not understood in Walk: %s", wExprStr(fset, s))
 }
 
-func caseSteps(fset *token.FileSet, body []ast.Stmt) ([]wStep, error) {
+func wCaseSteps(fset *token.FileSet, body []ast.Stmt) ([]wStep, error) {
 	var res []wStep
 	for _, s := range body {
 		// if !n.Flag { <simple steps> }
 		if is, ok := s.(*ast.IfStmt); ok && is.Init == nil && is.Else == nil {
 			if ue, ok := is.Cond.(*ast.UnaryExpr); ok && ue.Op == token.NOT {
-				if g, ok := nField(ue.X, "n"); ok {
+				if g, ok := wNField(ue.X, "n"); ok {
 					for _, bs := range is.Body.List {
-						steps, err := simpleStep(fset, bs, "n", "")
+						steps, err := wSimpleStep(fset, bs, "n", "")
 						if err != nil {
 							return nil, err
 						}
@@ -682,7 +682,7 @@ func caseSteps(fset *token.FileSet, body []ast.Stmt) ([]wStep, error) {
 				}
 			}
 		}
-		steps, err := simpleStep(fset, s, "n", "")
+		steps, err := wSimpleStep(fset, s, "n", "")
 		if err != nil {
 			return nil, err
 		}
@@ -702,7 +702,7 @@ func readWalkSwitch(repo string) (*walkSwitch, error) {
 		if fd, ok := d.(*ast.FuncDecl); ok {
 			key := fd.Name.Name
 			if fd.Recv != nil {
-				key = exprStr(fset, fd.Recv.List[0].Type) + "." + key
+				key = wExprStr(fset, fd.Recv.List[0].Type) + "." + key
 			}
 			funcs[key] = fd
 		}
@@ -718,7 +718,7 @@ func readWalkSwitch(repo string) (*walkSwitch, error) {
 		if fd == nil {
 			return nil, broken("walk.go: func %s not found", name)
 		}
-		if got := exprStr(fset, fd.Body); got != want {
+		if got := wExprStr(fset, fd.Body); got != want {
 			return nil, broken("walk.go: body of %s changed: %s", name, got)
 		}
 	}
@@ -726,14 +726,14 @@ func readWalkSwitch(repo string) (*walkSwitch, error) {
 	if w == nil || len(w.Body.List) != 3 {
 		return nil, broken("walk.go: func Walk not found or its frame changed")
 	}
-	if got := exprStr(fset, w.Body.List[0]); got != "if v = v.Visit(node); v == nil { return }" {
+	if got := wExprStr(fset, w.Body.List[0]); got != "if v = v.Visit(node); v == nil { return }" {
 		return nil, broken("walk.go: Walk prologue changed: %s", got)
 	}
-	if got := exprStr(fset, w.Body.List[2]); got != "v.Visit(nil)" {
+	if got := wExprStr(fset, w.Body.List[2]); got != "v.Visit(nil)" {
 		return nil, broken("walk.go: Walk epilogue changed: %s", got)
 	}
 	ts, ok := w.Body.List[1].(*ast.TypeSwitchStmt)
-	if !ok || ts.Init != nil || exprStr(fset, ts.Assign) != "n := node.(type)" {
+	if !ok || ts.Init != nil || wExprStr(fset, ts.Assign) != "n := node.(type)" {
 		return nil, broken("walk.go: Walk's type switch changed")
 	}
 	res := &walkSwitch{cases: map[string][]wStep{}}
@@ -742,29 +742,29 @@ func readWalkSwitch(repo string) (*walkSwitch, error) {
 		if cl.List == nil {
 			if len(cl.Body) == 1 {
 				if es, ok := cl.Body[0].(*ast.ExprStmt); ok {
-					if c, ok := es.X.(*ast.CallExpr); ok && isIdent(c.Fun, "panic") {
+					if c, ok := es.X.(*ast.CallExpr); ok && wIsIdent(c.Fun, "panic") {
 						res.defaultPanic = true
 						continue
 					}
 				}
 			}
-			return nil, broken("walk.go: default clause not understood: %s", exprStr(fset, cl))
+			return nil, broken("walk.go: default clause not understood: %s", wExprStr(fset, cl))
 		}
 		if len(cl.List) > 1 && len(cl.Body) > 0 {
 			return nil, broken("walk.go: multi-type case with a body")
 		}
-		steps, err := caseSteps(fset, cl.Body)
+		steps, err := wCaseSteps(fset, cl.Body)
 		if err != nil {
 			return nil, err
 		}
 		for _, t := range cl.List {
 			st, ok := t.(*ast.StarExpr)
 			if !ok {
-				return nil, broken("walk.go: case type %s not understood", exprStr(fset, t))
+				return nil, broken("walk.go: case type %s not understood", wExprStr(fset, t))
 			}
 			id, ok := st.X.(*ast.Ident)
 			if !ok {
-				return nil, broken("walk.go: case type %s not understood", exprStr(fset, t))
+				return nil, broken("walk.go: case type %s not understood", wExprStr(fset, t))
 			}
 			if _, dup := res.cases[id.Name]; dup {
 				return nil, broken("walk.go: duplicate case %s", id.Name)
@@ -776,7 +776,7 @@ func readWalkSwitch(repo string) (*walkSwitch, error) {
 	return res, nil
 }
 
-func leanName(s string) string { return "«" + s + "»" }
+func wLeanName(s string) string { return "«" + s + "»" }
 
 func genWalk(repo, out string) error {
 	p, err := loadAstPkg(repo)
@@ -852,7 +852,7 @@ func genWalk(repo, out string) error {
 	w("import GopModel.Model.WalkModel\nnamespace GopModel.Generated.Walk\nopen GopModel.WalkModel\n\n")
 	w("/-- Node kinds: struct types of package ast with Pos() and End() (declaration order). -/\ninductive Kind where\n")
 	for _, k := range kinds {
-		w("  | %s\n", leanName(k))
+		w("  | %s\n", wLeanName(k))
 	}
 	w("  deriving DecidableEq, Repr\n\n")
 	w("def allKinds : List Kind := [\n")
@@ -861,7 +861,7 @@ func genWalk(repo, out string) error {
 		if i == len(kinds)-1 {
 			sep = ""
 		}
-		w("  .%s%s\n", leanName(k), sep)
+		w("  .%s%s\n", wLeanName(k), sep)
 	}
 	w("]\n\ndef kindNames : List (String × Kind) := [\n")
 	for i, k := range kinds {
@@ -869,11 +869,11 @@ func genWalk(repo, out string) error {
 		if i == len(kinds)-1 {
 			sep = ""
 		}
-		w("  (%q, .%s)%s\n", k, leanName(k), sep)
+		w("  (%q, .%s)%s\n", k, wLeanName(k), sep)
 	}
 	w("]\n\n/-- Field names (and paths through carrier structs) of all node kinds. -/\ninductive Fld where\n")
 	for _, f := range flds {
-		w("  | %s\n", leanName(f))
+		w("  | %s\n", wLeanName(f))
 	}
 	w("  deriving DecidableEq, Repr\n\n")
 	w("def fldNames : List (String × Fld) := [\n")
@@ -882,22 +882,22 @@ func genWalk(repo, out string) error {
 		if i == len(flds)-1 {
 			sep = ""
 		}
-		w("  (%q, .%s)%s\n", f, leanName(f), sep)
+		w("  (%q, .%s)%s\n", f, wLeanName(f), sep)
 	}
 	w("]\n\n/-- Fields of each kind in declaration order, classified by declared type. -/\ndef nodeFields : Kind → List (Fld × FKind)\n")
 	for _, k := range kinds {
-		w("  | .%s => [", leanName(k))
+		w("  | .%s => [", wLeanName(k))
 		for i, f := range fields[k] {
 			if i > 0 {
 				w(", ")
 			}
-			w("(.%s, .%s)", leanName(f.name), f.kind)
+			w("(.%s, .%s)", wLeanName(f.name), f.kind)
 		}
 		w("]\n")
 	}
 	w("\n/-- Single-node fields documented as possibly nil (field comment: \"or nil\", \"may be nil\", …). -/\ndef nilable : Kind → List Fld\n")
 	for _, k := range kinds {
-		w("  | .%s => [", leanName(k))
+		w("  | .%s => [", wLeanName(k))
 		first := true
 		for _, f := range fields[k] {
 			if f.nilable {
@@ -905,7 +905,7 @@ func genWalk(repo, out string) error {
 					w(", ")
 				}
 				first = false
-				w(".%s", leanName(f.name))
+				w(".%s", wLeanName(f.name))
 			}
 		}
 		w("]\n")
@@ -930,22 +930,22 @@ func genWalk(repo, out string) error {
 		steps, ok := ws.cases[k]
 		if !ok {
 			if ws.defaultPanic {
-				w("  | .%s => none\n", leanName(k))
+				w("  | .%s => none\n", wLeanName(k))
 			} else { // no panicking default: the kind is visited, none of its fields is
-				w("  | .%s => some []\n", leanName(k))
+				w("  | .%s => some []\n", wLeanName(k))
 			}
 			continue
 		}
-		w("  | .%s => some [", leanName(k))
+		w("  | .%s => some [", wLeanName(k))
 		for i, s := range steps {
 			if i > 0 {
 				w(", ")
 			}
 			g := "none"
 			if s.grd != "" {
-				g = "some ." + leanName(s.grd)
+				g = "some ." + wLeanName(s.grd)
 			}
-			w("⟨.%s, .%s, %s⟩", s.op, leanName(s.fld), g)
+			w("⟨.%s, .%s, %s⟩", s.op, wLeanName(s.fld), g)
 		}
 		w("]\n")
 	}
